@@ -1,62 +1,45 @@
 import S3V.Props.C15
 /-!
-# C15 — counterexample to the full statement "every `Err(S3Error)` item is framed"
+# C15 — the former counterexample (F-evstream-1 / F-evstream-2), restated after the repair f8c01e3
 
-An error whose message is 65 536 bytes long is not turned into an event-stream error message: the
-`:error-message` header value does not fit the u16 length field, `Message::serialize` returns
-`SerError::IntOverflow` and the byte stream yields an `Err` item (known finding F-evstream-1; witness
-`w-error-message-65536` in `corpus/evstream.txt`). The same holds for a 65 536-byte custom error code
-(F-evstream-2, `w-error-code-65536`).
+Before f8c01e3 `request_level_error` put code and message into the headers unchanged, and an error whose
+message (or custom code) exceeded 65 535 bytes made `Message::serialize` fail (`SerError::IntOverflow`), so the
+response body yielded an error instead of an error frame. `C15_raw_error_text_unframed` keeps that fact as a
+statement about `serialize` itself (why the cut is needed); `C15_witness_message_framed` shows the corpus
+witness `w-error-message-65536` is framed by the repaired model, with the message cut to 65 535 bytes.
 -/
 namespace S3V.C15
-open S3V S3V.EvStream S3V.EvStreamThm
+open S3V S3V.EvStream S3V.EvStreamSpec S3V.EvStreamThm
 
-/-- the model's answer for an error whose message is too long for a string header: an `Err` item
-    (`SerError::IntOverflow`), for every checksum function -/
-theorem C15_error_message_too_long_unframed (crc32 : Bytes → Nat) (code msg : Bytes)
-    (h : 65535 < msg.length) (hc : code.length < 1000000) (hm : msg.length < 1000000) :
-    eventIntoBytes crc32 (.error ⟨code, some msg⟩) = .error .intOverflow := by
-  unfold eventIntoBytes
-  rw [serialize_eq]
-  have h1 : ¬ usizeLimit ≤ 16 + hdrSize (itemMessage (.error ⟨code, some msg⟩)).headers +
-      (payloadBytes (itemMessage (.error ⟨code, some msg⟩))).length := by
-    simp [itemMessage, requestLevelError, hdrSize, hdr, payloadBytes, usizeLimit, hErrorCode, hErrorMessage,
-      hMessageType, vError]
-    omega
-  have h2 : sizesOk (itemMessage (.error ⟨code, some msg⟩)) = false := by
-    have : ¬ msg.length < 65536 := by omega
-    simp [sizesOk, itemMessage, requestLevelError, hdr, fits, this]
-  simp [h1, h2]
-
-/-- concrete witness (`w-error-message-65536` of the corpus): code `InternalError`, 65 536 × `m` -/
-theorem C15_witness_message_65536 (crc32 : Bytes → Nat) :
-    eventIntoBytes crc32 (.error ⟨[73, 110, 116, 101, 114, 110, 97, 108, 69, 114, 114, 111, 114],
-      some (List.replicate 65536 109)⟩) = .error .intOverflow := by
-  have hl : (List.replicate 65536 (109 : UInt8)).length = 65536 := List.length_replicate
-  apply C15_error_message_too_long_unframed
-  · rw [hl]; decide
-  · decide
-  · rw [hl]; decide
-
-theorem C15_error_always_framed_full_is_false : ¬ C15_error_always_framed_full := by
-  intro h
-  obtain ⟨b, hb⟩ := h (fun _ => 0) ⟨[], some (List.replicate 65536 109)⟩
-  rw [C15_witness_aux] at hb
-  cases hb
-where
-  C15_witness_aux : eventIntoBytes (fun _ => 0) (.error ⟨[], some (List.replicate 65536 109)⟩) = .error .intOverflow := by
-    have hl : (List.replicate 65536 (109 : UInt8)).length = 65536 := List.length_replicate
-    apply C15_error_message_too_long_unframed
-    · rw [hl]; decide
-    · decide
-    · rw [hl]; decide
-
-/-- likewise a custom error code that is too long (`w-error-code-65536`) -/
-theorem C15_error_code_too_long_unframed (crc32 : Bytes → Nat) (code : Bytes) (msg : Option Bytes) (b : Bytes)
-    (h : 65535 < code.length) : eventIntoBytes crc32 (.error ⟨code, msg⟩) ≠ .ok b := by
+/-- a message carrying a header value of more than 65 535 bytes is never serialised: without
+    `truncate_header_value` an over-long error text cannot be framed -/
+theorem C15_raw_error_text_unframed (crc32 : Bytes → Nat) (code msg : Bytes) (h : 65535 < msg.length) (b : Bytes) :
+    serialize crc32 ⟨[hdr hErrorCode code, hdr hErrorMessage msg, hdr hMessageType vError], none⟩ ≠ .ok b := by
   intro hb
-  have := (C15_error_unframed_iff _ _).mp ⟨b, hb⟩
-  have h' : ¬ code.length ≤ 65535 := by omega
-  simp [errorTooLong, h'] at this
+  have := (C15_serialize_ok_iff_sizesOk crc32 _).mp ⟨b, hb⟩
+  rw [sizesOk_iff] at this
+  have h1 := this.1
+  simp [hdr] at h1
+  omega
+
+/-- the corpus witness (code `InternalError`, message 65 536 × `m` — here any message `msg`) is framed now, and
+    a client reads the code unchanged and the message cut to at most 65 535 bytes -/
+theorem C15_witness_message_framed (crc32 : Bytes → Nat) (msg : Bytes) :
+    ∃ b, eventIntoBytes crc32 (.error ⟨[73, 110, 116, 101, 114, 110, 97, 108, 69, 114, 114, 111, 114],
+        some msg⟩) = .ok b ∧
+      ∀ rest, ∃ dm, decodeFrame crc32 (b ++ rest) = some (dm, rest) ∧
+        interpret dm = some (.error [73, 110, 116, 101, 114, 110, 97, 108, 69, 114, 114, 111, 114]
+          (truncateHeaderValue msg)) ∧
+        (truncateHeaderValue msg).length ≤ 65535 := by
+  obtain ⟨b, hb⟩ := C15_error_always_framed crc32 ⟨[73, 110, 116, 101, 114, 110, 97, 108, 69, 114, 114, 111, 114],
+    some msg⟩
+  refine ⟨b, hb, fun rest => ?_⟩
+  obtain ⟨dm, h1, h2⟩ := C15_error_recovered crc32 _ b rest hb
+  refine ⟨dm, h1, ?_, truncateHeaderValue_length_le _⟩
+  rw [h2]
+  have : truncateHeaderValue [73, 110, 116, 101, 114, 110, 97, 108, 69, 114, 114, 111, 114]
+      = [73, 110, 116, 101, 114, 110, 97, 108, 69, 114, 114, 111, 114] :=
+    truncateHeaderValue_eq_self _ (by decide)
+  simp only [this, Option.map_some, Option.getD_some]
 
 end S3V.C15
